@@ -420,7 +420,7 @@ func classS(c SCase) fx.Class {
 
 func TestFrpsBarrage(t *testing.T) {
 	fx.Prelease(2)
-	fx.Run(t, fx.Spec[SCase]{Prop: "C16", Name: "frps_barrage", Quick: 240, Thorough: 12000, Gen: genS, Run: runS, Class: classS, ShrinkTime: "60s"})
+	fx.Run(t, fx.Spec[SCase]{Prop: "C16", Name: "frps_barrage", Quick: 240, Thorough: 4000, Gen: genS, Run: runS, Class: classS, ShrinkTime: "60s"})
 }
 
 // ---- frpc against a hostile server ------------------------------------------------------------------
@@ -611,7 +611,7 @@ remotePort = 6001
 }
 
 func TestFrpcHostileServer(t *testing.T) {
-	fx.Run(t, fx.Spec[CCase]{Prop: "C16", Name: "frpc_hostile_server", Quick: 120, Thorough: 6000, Gen: genCC, Run: runCC, ShrinkTime: "60s",
+	fx.Run(t, fx.Spec[CCase]{Prop: "C16", Name: "frpc_hostile_server", Quick: 120, Thorough: 2000, Gen: genCC, Run: runCC, ShrinkTime: "60s",
 		Class: func(c CCase) fx.Class {
 			b, _ := json.Marshal(c)
 			return fx.Class{NonTrivial: len(c.Msgs)+len(c.Starts)+c.Flood >= 2, Fingerprint: string(b)}
